@@ -129,7 +129,7 @@ class Engine:
                 if re.match(r'^\s+switch ', ln) and not ln.rstrip().endswith(']'):
                     while True:
                         ln += ' ' + lines[j].strip(); j += 1
-                        if lines[j - 1].strip() == ']': break
+                        if lines[j - 1].strip() == ']' or lines[j - 1].strip().startswith('],'): break
                 while j < len(lines) and re.match(r'^\s+(to label|catch |cleanup|filter )', lines[j]):
                     ln += ' ' + lines[j].strip(); j += 1
                 m = ir2c.INSTR_ASSIGN.match(ln)
